@@ -164,7 +164,23 @@ pub fn gen_v1(t: &mut Tape) -> Case {
             gen::gen_port(t).to_string().into_bytes(),
         ];
     }
-    let element = V1_ELEMENTS[t.below(V1_ELEMENTS.len() as u32) as usize];
+    let mut element = V1_ELEMENTS[t.below(V1_ELEMENTS.len() as u32) as usize];
+    // one base in four is an UNKNOWN line (bare, or with ignored text); its corruptible elements are
+    // the keyword, the protocol, the byte after the CR, the length and the encoding
+    if t.chance(1, 4) {
+        p.proto = b"UNKNOWN".to_vec();
+        p.fields = vec![];
+        if t.coin() {
+            let mut txt = gen::gen_unknown_text(t, true, 60);
+            txt.retain(|&b| b != b'\r');
+            p.tail = vec![b' '];
+            p.tail.extend(txt);
+        }
+        if !matches!(element, "keyword" | "protocol" | "after-cr" | "length" | "utf8") {
+            element = *t.pick(&["after-cr", "keyword", "protocol"]);
+        }
+    }
+    let unknown_base = p.proto == b"UNKNOWN";
     match element {
         "keyword" => {
             p.keyword = t.pick(&["proxy", "Proxy", "PROX", "PROXYY", "", "PROXY\0", "XPROXY", "PROXI", "PR0XY", "P", "PROXY\t", "\u{ff30}ROXY", "PROXY\n"]).as_bytes().to_vec();
@@ -229,7 +245,7 @@ pub fn gen_v1(t: &mut Tape) -> Case {
         }
         _ => {
             // invalid UTF-8 inside the line (UNKNOWN text, or inside a field)
-            let mut line = if t.coin() { b"PROXY UNKNOWN some text".to_vec() } else { let l = p.render(); l[..l.len() - 2].to_vec() };
+            let mut line = if !unknown_base && t.coin() { b"PROXY UNKNOWN some text".to_vec() } else { let l = p.render(); l[..l.len() - 2].to_vec() };
             let at = t.below(line.len() as u32 + 1) as usize;
             let bad: &[u8] = *t.pick(&[&b"\xff"[..], b"\xc3", b"\xe2\x82", b"\xf0\x90\x80", b"\xc0\xaf", b"\xed\xa0\x80", b"\x80"]);
             let tail = line.split_off(at);
